@@ -326,7 +326,63 @@ def _halving_loop(fn: FuncInfo):
         return None, 'unbounded expression `%s`' % norm(e)[:40]
     if var not in loc:
         return None, 'initial shift not assigned before the loop'
-    return lo(loc[var])
+    got = lo(loc[var])
+    if got[0] is not None:
+        return got
+    # dtype-aware start: evaluate the initial shift for every integer width numpy has (itemsize 1, 2, 4, 8 bytes) and for the plain
+    # Python-int alternative of a try/except; each candidate is (initial shift, bits the value can have)
+    alld: Dict[str, List[ast.AST]] = {}
+    for n in ast.walk(fn.node):
+        if isinstance(n, ast.Assign) and len(n.targets) == 1 and isinstance(n.targets[0], ast.Name) and n.lineno < w.lineno:
+            alld.setdefault(n.targets[0].id, []).append(n.value)
+
+    def vals(e, depth=0):
+        """[(value, width in bits or None)]; None when not understood"""
+        if depth > 6:
+            return None
+        v = const_value(e)
+        if isinstance(v, int) and not isinstance(v, bool):
+            return [(v, None)]
+        if isinstance(e, ast.Attribute) and e.attr == 'itemsize':
+            return [(b, 8 * b) for b in (1, 2, 4, 8)]
+        if isinstance(e, ast.Attribute) and e.attr == 'bits':
+            return [(8 * b, 8 * b) for b in (1, 2, 4, 8)]
+        if isinstance(e, ast.Name) and e.id in alld:
+            out = []
+            for d in alld[e.id]:
+                r = vals(d, depth + 1)
+                if r is None:
+                    return None
+                out += r
+            return out
+        if isinstance(e, ast.BinOp) and isinstance(e.op, (ast.FloorDiv, ast.Mult, ast.Add, ast.Sub, ast.RShift, ast.LShift)):
+            l, r = vals(e.left, depth + 1), vals(e.right, depth + 1)
+            if l is None or r is None:
+                return None
+            out = []
+            for a, wa in l:
+                for b, wb in r:
+                    if wa is not None and wb is not None and wa != wb:
+                        continue
+                    op = e.op
+                    if isinstance(op, (ast.FloorDiv,)) and b == 0:
+                        return None
+                    val = a // b if isinstance(op, ast.FloorDiv) else a * b if isinstance(op, ast.Mult) else a + b if isinstance(op, ast.Add) \
+                        else a - b if isinstance(op, ast.Sub) else a >> b if isinstance(op, ast.RShift) else a << b
+                    out.append((val, wa if wa is not None else wb))
+            return out
+        return None
+    cands = vals(loc[var])
+    if cands is None:
+        return got
+    worst = None
+    for v_, w_ in cands:
+        need = (w_ or WIDTH) // 2
+        if v_ < need and (worst is None or v_ < worst[0]):
+            worst = (v_, w_)
+    if worst is None:
+        return WIDTH // 2, 'every integer width starts at half its bit width (%s)' % sorted(set(cands))[:6]
+    return worst[0], 'for %s the loop starts at shift %d' % ('a %d-bit integer dtype' % worst[1] if worst[1] else 'plain Python ints', worst[0])
 
 
 def _check_gray2binary(ctx: Ctx) -> None:
@@ -352,8 +408,8 @@ def _check_gray2binary(ctx: Ctx) -> None:
                 if start is None:
                     ctx.error('C15.b: halving-shift loop whose initial shift cannot be bounded (%s)' % why)
                 if not ok:
-                    ctx.violation('C15.b', 'gray2binary', 'the halving-shift loop can start at shift %d (%s): integers that carry no dtype '
-                                  '(plain Python ints) are only inverted below 2^%d' % (start, why, 2 * start), fn.path, fn.lineno, operand='width')
+                    ctx.violation('C15.b', 'gray2binary', 'the halving-shift loop can start at shift %d (%s): values are then only inverted below 2^%d, '
+                                  'fewer bits than the integer can hold' % (start, why, 2 * start), fn.path, fn.lineno, operand='width')
                 return
             whiles = [l for l in loops if isinstance(l, ast.While)]
             ok = bool(whiles) and any(isinstance(n, ast.AugAssign) and isinstance(n.op, ast.RShift) for n in ast.walk(whiles[0])) \
